@@ -1,5 +1,5 @@
 ---------------------------- MODULE TokenSeqs ----------------------------
-(* C20 (and C01 b): every sequence of up to MaxTok tokens over a 31-token OCTAVE alphabet, as a *)
+(* C20 (and C01 b): every sequence of up to MaxTok tokens over a 34-token OCTAVE alphabet, as a *)
 (* whole input (C20) or as the value of an assignment K:: (C01 b).  Totality: the outcome of a   *)
 (* reader is a document or its own positioned error; the outcome of a tool is an envelope.       *)
 EXTENDS Naturals, Sequences, TLC, Json
@@ -8,7 +8,8 @@ CONSTANTS MaxTok, Mode            \* Mode = "input" | "value"
 VARIABLE ts
 
 Tokens == {"::", ":", "[", "]", ",", "U2192", "->", "+", "~", "vs", "<->", "&", "|", "@", "U00A7", "#", "// c", "===A===",
-           "===END===", "---", "\"s\"", "42", "true", "null", "A", "U000A", "  ", "1.2.3", "$V", "```", "1e999"}      \* 1e999: a number literal that overflows a double
+           "===END===", "---", "\"s\"", "42", "true", "null", "A", "U000A", "  ", "1.2.3", "$V", "```", "1e999",      \* 1e999: a number literal that overflows a double
+           "U00DC", "===U00DC===", "===A B==="}                \* letters outside ASCII: as a word, as an envelope name; an envelope name with a blank
 Init == ts = <<>>
 Extend == Len(ts) < MaxTok /\ \E t \in Tokens : ts' = Append(ts, t)
 Next == Extend
